@@ -836,6 +836,29 @@ pub(crate) fn composite_preprocess(
     Ok(skip_blending)
 }
 
+/// Region of the frame, in frame coordinates, that the composed result of the frame covers.
+///
+/// This is exactly the requested region. Padding it (as rendering does for filters and
+/// upsampling) would ask the blending source for a region larger than the one it was asked to
+/// cover, growing with every layer of the chain.
+pub(crate) fn composite_region(
+    image_header: &ImageHeader,
+    frame_header: &FrameHeader,
+    oriented_image_region: Region,
+) -> Region {
+    let frame_region = oriented_image_region
+        .translate(-frame_header.x0, -frame_header.y0)
+        .downsample(frame_header.lf_level * 3);
+    if frame_header.frame_type.is_normal_frame() {
+        let full_image_region_in_frame =
+            Region::with_size(image_header.size.width, image_header.size.height)
+                .translate(-frame_header.x0, -frame_header.y0);
+        frame_region.intersection(full_image_region_in_frame)
+    } else {
+        frame_region
+    }
+}
+
 pub(crate) fn composite<S: Sample>(
     frame: &IndexedFrame,
     grid: &mut ImageWithRegion,
@@ -844,21 +867,7 @@ pub(crate) fn composite<S: Sample>(
     pool: &JxlThreadPool,
 ) -> Result<()> {
     let image_header = frame.image_header();
-    let frame_header = frame.header();
-    let frame_region = oriented_image_region
-        .translate(-frame_header.x0, -frame_header.y0)
-        .downsample(frame_header.lf_level * 3);
-    let frame_region = util::pad_lf_region(frame_header, frame_region);
-    let frame_region = util::pad_color_region(image_header, frame_header, frame_region);
-    let frame_region = frame_region.upsample(frame_header.upsampling.ilog2());
-    let frame_region = if frame_header.frame_type.is_normal_frame() {
-        let full_image_region_in_frame =
-            Region::with_size(image_header.size.width, image_header.size.height)
-                .translate(-frame_header.x0, -frame_header.y0);
-        frame_region.intersection(full_image_region_in_frame)
-    } else {
-        frame_region
-    };
+    let frame_region = composite_region(image_header, frame.header(), oriented_image_region);
 
     let image = crate::blend::blend(image_header, refs, frame, grid, frame_region, pool)?;
     *grid = image;
